@@ -200,7 +200,7 @@ func deadlockWatchdog() {
 }
 
 // spinningLibGoroutine: six snapshots one second apart, in each of which exactly one goroutine (the same
-// one) is not parked, that goroutine has library frames, and the case counter has not moved. It returns
+// one) is not parked, that goroutine was started by the library and has library frames, and the case counter has not moved. It returns
 // that goroutine and the library functions that were on its stack every time (innermost first).
 func spinningLibGoroutine(cur int64) (*gInfo, []string) {
 	var gid int
@@ -237,6 +237,12 @@ func spinningLibGoroutine(cur int64) (*gInfo, []string) {
 			return nil, nil
 		}
 		g := running[0]
+		// only a goroutine the library itself started (its outermost function is the library's): a
+		// harness goroutine that calls into the library over and over - a long enumeration - is at work,
+		// not in a loop nothing can end
+		if len(g.frames) == 0 || !strings.HasPrefix(g.frames[len(g.frames)-1], libPath) {
+			return nil, nil
+		}
 		if g.state != "running" && g.state != "runnable" {
 			return nil, nil
 		}
